@@ -440,6 +440,79 @@ func plan(prop string, seed int64, scale int) []op {
 			}
 		}
 		return p.ops
+	case "C03":
+		// single-code-point strings: every member of every orbit against every other member,
+		// against neighbours, and against random code points; IndexRune on single-rune haystacks
+		p := mk(false)
+		p.fam = "orbit-pairs"
+		seen := map[rune]bool{}
+		step := rune(3)
+		if scale > 1 {
+			step = 1
+		}
+		for r := rune(0); r <= unicode.MaxRune; r++ {
+			o := gen.Orbit(r)
+			if len(o) < 2 || seen[o[0]] {
+				continue
+			}
+			seen[o[0]] = true
+			for _, a := range o {
+				for _, b := range o {
+					p.pair(fnCmp, gen.Pair{S: []byte(string(a)), T: []byte(string(b))})
+				}
+				for _, b := range []rune{a + 1, a - 1, a + 32, a ^ 0x20, unicode.ToUpper(a), unicode.ToLower(a)} {
+					if b >= 0 && (a+b)%step == 0 {
+						p.pair([]string{"EqualFold"}, gen.Pair{S: []byte(string(a)), T: []byte(string(b))})
+					}
+				}
+				p.group++
+				gen.OpsRune(fnRune, p.sfx, []byte("x"+string(o[len(o)-1])), a, p.emit)
+			}
+		}
+		p.fam = "random-code-points"
+		for i := 0; i < n*4; i++ {
+			a, b := p.g.RandRune(), p.g.RandRune()
+			p.pair(fnCmp, gen.Pair{S: []byte(string(a)), T: []byte(string(b))})
+		}
+		p.fam = "special"
+		for _, a := range []rune{0x130, 0x131, 'i', 'I', 0xFFFD, 0xD800, 0x10FFFF, 'K', 'k', 0x212A, 'S', 's', 0x17F} {
+			for _, b := range []rune{0x130, 0x131, 'i', 'I', 0xFFFD, 'K', 'k', 0x212A, 'S', 's', 0x17F} {
+				p.pair(fnCmp, gen.Pair{S: []byte(string(a)), T: []byte(string(b))})
+			}
+		}
+		return p.ops
+	case "C05", "C18":
+		// the runtime tools carry these properties; the ops here keep the model tied to the code
+		p := mk(false)
+		p.pairFamilies(fnAll2, n/6)
+		return p.ops
+	case "C13", "C14":
+		p := mk(false)
+		p.fam = "byte-kernels"
+		kfns := []string{"kIndexByte", "kCount", "IndexByteASCII", "IndexByte", "LastIndexByte"}
+		for i := 0; i < n*2; i++ {
+			g := p.g
+			L := []int{0, 1, 7, 15, 16, 17, 31, 32, 33, 63, 64, 65, 100, 130, 257}[g.R.Intn(15)]
+			s := g.Pad(L, g.R.Intn(2), nil)
+			c := []byte("kKsSaZz1@[`{\x00\x7f\xc5\xe2\xff")[g.R.Intn(17)]
+			for j := g.R.Intn(3); j > 0 && len(s) > 0; j-- {
+				k := g.R.Intn(len(s))
+				if k > len(s)-4 && g.R.Intn(2) == 0 {
+					k = len(s) - 1
+				}
+				s[k] = []byte{c, c ^ 0x20, c | 0x80}[g.R.Intn(3)]
+			}
+			p.group++
+			gen.OpsByte(kfns, p.sfx, s, c, p.emit)
+			gen.Ops1([]string{"kIndexNonASCII", "IndexNonASCII", "ContainsNonASCII"}, p.sfx, s, p.emit)
+			gen.Ops2([]string{"Count"}, p.sfx, gen.Pair{S: s, T: []byte{c & 0x7F}}, p.emit)
+		}
+		if prop == "C14" {
+			p.pairFamilies(fnAll2, n/4)
+			p.runeFamilies(concat(fnRune, []string{"indexRuneCase"}), n/2)
+			p.byteFamilies(fnByte, n/3)
+		}
+		return p.ops
 	case "tables":
 		// exhaustive correspondence of the five table functions (C03)
 		p := mk(false)
